@@ -419,3 +419,24 @@ Proof.
   intros H0 H1. unfold py_monthly2daily.
   rewrite (proj2 (Z.eqb_neq _ _) H0), (proj2 (Z.eqb_neq _ _) H1). reflexivity.
 Qed.
+
+(* ================================================================== *)
+(* 3. concrete instances (non-vacuity)                                  *)
+
+Lemma ex_leap : is_leap 2000 = true /\ is_leap 1900 = false /\ is_leap 2024 = true /\ is_leap 2023 = false.
+Proof. repeat split; reflexivity. Qed.
+
+Lemma ex_m2d_hyps : valid_month (2000%Z, 2%Z) /\ Forall (fun v => 0 <= v) [58; 0; 15].
+Proof. split; [unfold valid_month; simpl; lia|]. repeat constructor; lra. Qed.
+
+(* February 2000 has 29 days: the flat series starts with 29 values 58/29 *)
+Lemma ex_m2d_flat_first_block :
+  exists rest, m2d_flat RR 0 (2000%Z, 2%Z) [58; 0; 15] = repeat (58 / 29) 29 ++ rest.
+Proof.
+  unfold m2d_flat. cbn [length months_from combine flat_map fst snd].
+  rewrite m2d_flat_month_RR by (try reflexivity; lra).
+  eexists. reflexivity.
+Qed.
+
+Lemma ex_cubic_rec : (1 <= m_nd (mkM 29%Z 58 1 3) <= M2D_NGRID - 1)%Z.
+Proof. simpl. unfold M2D_NGRID. lia. Qed.
